@@ -27,7 +27,7 @@ def build_family(bases):
         ]
     mod = types.ModuleType(MODNAME)
     sys.modules[MODNAME] = mod
-    exec("\n".join(src), mod.__dict__)
+    exec(compile("\n".join(src), "<verif-generated>", "exec", dont_inherit=True), mod.__dict__)
     fam = {}
     for b in bases:
         n = b[1:]
